@@ -120,6 +120,54 @@ pub fn exec(out: &mut Out, line: &str) -> (String, bool) {
                 Err(_) => ("panic".into(), false),
             }
         }
+        "setcoordsh" => {
+            // the same through a cell that was LOADED as a member of a shared formula: the master at (c0, r0) carries the
+            // text, the member one row below carries `<f t="shared" si="0"/>`; the member is moved by (c1 - c0, r1 - r0)
+            let (c0, r0, c1, r1): (u32, u32, u32, u32) =
+                (a[3].parse().unwrap(), a[4].parse().unwrap(), a[5].parse().unwrap(), a[6].parse().unwrap());
+            let r = guard(|| -> Result<String, String> {
+                let col = umya_spreadsheet::helper::coordinate::string_from_column_index(&c0);
+                let esc = src.replace('&', "&amp;").replace('<', "&lt;").replace('>', "&gt;");
+                let data = format!(
+                    "<sheetData><row r=\"{r0}\"><c r=\"{col}{r0}\"><f t=\"shared\" ref=\"{col}{r0}:{col}{r1_}\" si=\"0\">{esc}</f><v>1</v></c></row><row r=\"{r1_}\"><c r=\"{col}{r1_}\"><f t=\"shared\" si=\"0\"/><v>2</v></c></row></sheetData>",
+                    r0 = r0, r1_ = r0 + 1, col = col, esc = esc
+                );
+                let base = crate::wb::save_bytes(&umya_spreadsheet::new_file(), false)?;
+                let parts: Vec<(String, Vec<u8>)> = unzip_all(&base)?
+                    .into_iter()
+                    .map(|(name, bytes)| {
+                        if name == "xl/worksheets/sheet1.xml" {
+                            let x = String::from_utf8_lossy(&bytes).to_string();
+                            let x = match (x.find("<sheetData"), x.find("</sheetData>")) {
+                                (Some(i), Some(j)) => format!("{}{}{}", &x[..i], data, &x[j + "</sheetData>".len()..]),
+                                (Some(i), None) => {
+                                    let j = x[i..].find("/>").map(|k| i + k + 2).unwrap_or(i);
+                                    format!("{}{}{}", &x[..i], data, &x[j..])
+                                }
+                                _ => x,
+                            };
+                            (name, x.into_bytes())
+                        } else {
+                            (name, bytes)
+                        }
+                    })
+                    .collect();
+                let book = umya_spreadsheet::reader::xlsx::read_reader(std::io::Cursor::new(crate::c03::zip_parts(&parts, false)), true).map_err(|e| format!("{:?}", e))?;
+                let mut cell = book.get_sheet(&0).unwrap().get_cell((c0, r0 + 1)).ok_or("member cell missing")?.clone();
+                let (nc, nr) = (c0 as i64 + (c1 as i64 - c0 as i64), r0 as i64 + 1 + (r1 as i64 - r0 as i64));
+                cell.set_coordinate((nc as u32, nr as u32));
+                Ok(cell.get_formula().to_string())
+            });
+            let r2: Result<String, ()> = match r {
+                Ok(Ok(t)) => Ok(t),
+                _ => Err(()),
+            };
+            judge(out, line, "translate", &src, r2.clone(), a[7], a[8], a[9]);
+            match r2 {
+                Ok(t) => (hex(&t), true),
+                Err(_) => ("panic".into(), false),
+            }
+        }
         "adj" => {
             let dc: i32 = a[3].parse().unwrap();
             let dr: i32 = a[4].parse().unwrap();
@@ -240,6 +288,14 @@ pub fn gen(tier: Tier, seed: u64) -> Vec<String> {
             let t = translate(&e, dc, dr);
             let texp = print(&t, false);
             let talt = alt_of(&t, &texp);
+            if rng.chance(1, 4) && r0 + 1 + (dr.max(0) as u32) <= 1_048_576 && (r0 as i64 + 1 + dr) >= 1 {
+                // a member of a shared formula one row below the master, moved by the same (dc, dr)
+                let t1 = translate(&e, 0, 1);
+                let t2 = translate(&t1, dc, dr);
+                let t2exp = print(&t2, false);
+                let t2alt = alt_of(&t2, &t2exp);
+                v.push(format!("c09 setcoordsh {} {} {} {} {} {} {} {}", hex(&src), c0, r0, c1, r1, hex(&t2exp), t2alt, tags));
+            }
             if rng.chance(2, 3) {
                 v.push(format!("c09 setcoord {} {} {} {} {} {} {} {}", hex(&src), c0, r0, c1, r1, hex(&texp), talt, tags));
             } else {
